@@ -228,12 +228,17 @@ func mkQuoT(a, b Value) Value {
 		return a
 	}
 	al, ah := rng(a)
+	mb := minAbsDivisor(b)
 	if nonNeg(a) && nonNeg(b) {
-		return symI("(div "+T(a)+" "+T(b)+")", big.NewInt(0), ah)
+		var hi *big.Int
+		if ah != nil {
+			hi = new(big.Int).Quo(ah, mb)
+		}
+		return symI("(div "+T(a)+" "+T(b)+")", big.NewInt(0), hi)
 	}
 	var lo, hi *big.Int
 	if al != nil && ah != nil {
-		m := maxAbs(al, ah)
+		m := new(big.Int).Quo(maxAbs(al, ah), mb)
 		lo, hi = new(big.Int).Neg(m), m
 	}
 	return symI("(tdiv "+T(a)+" "+T(b)+")", lo, hi)
@@ -271,12 +276,17 @@ func mkDivE(a, b Value) Value {
 		return new(big.Int).Div(x, y)
 	}
 	al, ah := rng(a)
+	mb := minAbsDivisor(b)
 	if nonNeg(a) && nonNeg(b) {
-		return symI("(div "+T(a)+" "+T(b)+")", big.NewInt(0), ah)
+		var hi *big.Int
+		if ah != nil {
+			hi = new(big.Int).Quo(ah, mb)
+		}
+		return symI("(div "+T(a)+" "+T(b)+")", big.NewInt(0), hi)
 	}
 	var lo, hi *big.Int
 	if al != nil && ah != nil {
-		m := new(big.Int).Add(maxAbs(al, ah), big.NewInt(1))
+		m := new(big.Int).Add(new(big.Int).Quo(maxAbs(al, ah), mb), big.NewInt(1))
 		lo, hi = new(big.Int).Neg(m), m
 	}
 	return symI("(div "+T(a)+" "+T(b)+")", lo, hi)
@@ -449,3 +459,16 @@ func pow2(n int) *big.Int { return new(big.Int).Lsh(big.NewInt(1), uint(n)) }
 var pow10_18 = new(big.Int).Exp(big.NewInt(10), big.NewInt(18), nil)
 
 
+
+// minAbsDivisor: a lower bound (>= 1) of |b| over the known interval of a divisor (callers exclude b = 0 beforehand).
+func minAbsDivisor(b Value) *big.Int {
+	bl, bh := rng(b)
+	one := big.NewInt(1)
+	if bl != nil && bl.Sign() > 0 {
+		return bl
+	}
+	if bh != nil && bh.Sign() < 0 {
+		return new(big.Int).Neg(bh)
+	}
+	return one
+}
